@@ -12,7 +12,7 @@ Operations whose implementation is not modelled (dd.read, nc.vec, nc.seq, ct.par
 compared by outcome class only (the model answers `?`)."""
 import random, itertools, os, sys, importlib.util
 
-UNMODELLED = ("nc.vec", "nc.seq", "ct.parse")        # dd.read: see compare()
+UNMODELLED = ("nc.vec", "nc.seq", "ct.parse", "dt.edit", "at.opts")        # dd.read: see compare()
 
 
 def _load_tool(name):
@@ -585,6 +585,81 @@ def dist_desc(rng, depth=0):
     return name + "(" + body + "))"
 
 
+def g_dte(rng, tier):
+    """table editing (DataTable.cpp:95-545): a table read from a well-formed text (or built without names), then a
+    script of editing calls with indexes at and beyond the limits and names that exist, are duplicated or missing"""
+    sep = ","
+    if rng.random() < 0.12:
+        txt, hdr, rn = "\x00", 0, rng.choice([0, 1, 3])          # DataTable(nRow, 2): no row names, no column names
+        r, c, names, cols = rn, 2, [], []
+    else:
+        c = rng.randint(1, 4); r = rng.randint(1, 4)
+        withnames = rng.random() < 0.5
+        hdr = 1 if (withnames or rng.random() < 0.6) else 0
+        lines = []
+        if hdr:
+            lines.append(sep.join("c%d" % j for j in range(c)))
+        for i in range(r):
+            row = ["%d%d" % (i, j) for j in range(c)]
+            if withnames:
+                row = ["r%d" % i] + row
+            lines.append(sep.join(row))
+        txt = "\n".join(lines) + "\n"
+        rn = rng.choice([-1, -1, -1, 0, 1]) if not withnames else -1
+        names = ["r%d" % i for i in range(r)] if withnames else []
+        cols = ["c%d" % j for j in range(c)] if hdr else []
+        if not hdr:
+            r = r                                                 # first line is a row
+    idx = lambda n: rng.choice([0, 0, 1, 2, max(0, n - 1), n, n + 1, 7, 100, 2 ** 32, 2 ** 63, 2 ** 64 - 1])
+    nm = lambda pool: hx(rng.choice(pool + ["r0", "r1", "c0", "c1", "R0", "C0", "", "x", "new"]))
+    calls = []
+    for _ in range(rng.choice([1, 2, 3, 4, 6, 8])):
+        k = rng.choice(["srn", "srn", "srn", "srns", "srnd", "scns", "grn", "gcn", "grns", "gcns", "gc", "gcN", "hc", "hr", "dc", "dcN", "ac", "acN", "gr", "grN",
+                        "dr", "dr", "drN", "ar", "arN", "sr", "cell", "cellN", "cellRN", "cellCN", "cp", "w"])
+        if k == "srn": calls.append("srn:%d:%s" % (idx(r), nm(names)))
+        elif k in ("srns", "srnd"): calls.append("%s:%d" % (k, rng.choice([r, r, r + 1, max(0, r - 1), 0, 2])))
+        elif k == "scns": calls.append("scns:%d" % rng.choice([c, c, c + 1, max(0, c - 1), 0]))
+        elif k in ("grn", "gr", "dr"): calls.append("%s:%d" % (k, idx(r)))
+        elif k in ("gcn", "gc", "dc"): calls.append("%s:%d" % (k, idx(c)))
+        elif k in ("grns", "gcns", "cp", "w"): calls.append(k)
+        elif k in ("gcN", "hc", "dcN"): calls.append("%s:%s" % (k, nm(cols)))
+        elif k in ("hr", "grN", "drN"): calls.append("%s:%s" % (k, nm(names)))
+        elif k == "ac": calls.append("ac:%d" % rng.choice([r, r, r + 1, 0]))
+        elif k == "acN": calls.append("acN:%s:%d" % (nm(cols), rng.choice([r, r, r + 1, 0])))
+        elif k == "ar": calls.append("ar:%d" % rng.choice([c, c, c + 1, 0]))
+        elif k == "arN": calls.append("arN:%s:%d" % (nm(names), rng.choice([c, c, c + 1, 0])))
+        elif k == "sr": calls.append("sr:%d:%d" % (idx(r), rng.choice([c, c, c + 1, 0])))
+        elif k == "cell": calls.append("cell:%d:%d" % (idx(r), idx(c)))
+        elif k == "cellN": calls.append("cellN:%s:%s" % (nm(names), nm(cols)))
+        elif k == "cellRN": calls.append("cellRN:%s:%d" % (nm(names), idx(c)))
+        else: calls.append("cellCN:%d:%s" % (idx(r), nm(cols)))
+    return "dt.edit %s %s %d %d %s" % (hx(txt), hx(sep), hdr, rn, ".".join(calls))
+
+
+OPT_LINES = ["a=1", "b = 2", "c=$(a)", "d=x$(a)y$(b)", "e=$(undefined)", "f=$(a", "g", "=h", "i=", "# comment", "j=1 // c", "k=/* x */2", "l=long\\", "continued", "\\",
+             "param=p0", "param=p1", "param=p0,p1", "param=p2", "param=missing", "param=", "param=p0,p0", "param=,", "param=.", "m=$(param)", "n==", "a=2", "o=$()", "p=$(a)$(a)"]
+
+
+def g_opts(rng, tier):
+    """AttributesTools::parseOptions: a command line and up to three parameter files p0, p1, p2 (which may name each other:
+    a file already seen is skipped).  Variable references are acyclic here: the non-termination of resolveVariables on cyclic
+    definitions (known finding) is exercised through at.vars, the same routine"""
+    def text(k):
+        ls = [rng.choice(OPT_LINES) for _ in range(rng.choice([0, 1, 2, 3, 5]))]
+        if rng.random() < 0.3:
+            ls = [mutate(rng, l, ["=", "#", "//", "param=", "p0", ","], 80, n=1).replace("$", "") if rng.random() < 0.5 else l for l in ls]
+        return rng.choice(["\n", "\n", "\r\n"]).join(ls) + rng.choice(["", "\n"])
+    args = [rng.choice(OPT_LINES) for _ in range(rng.choice([0, 1, 1, 2, 3]))]
+    if rng.random() < 0.6:
+        args.append(rng.choice(["param=p0", "param=p0,p1", "param=p1,p0,p2", "param=p0,missing", "param=p2"]))
+    if rng.random() < 0.15:
+        args = [mutate(rng, a, ["=", "param=", ",", "p0"], 60, n=1).replace("$", "").replace("\x00", "0") for a in args]
+    args = [a.replace("\x00", "0") for a in args]
+    m = rng.choice([0, 1, 2, 3, 3])
+    files = [text(i) for i in range(m)]
+    return "at.opts %d%s %d%s" % (len(args), "".join(" " + hx(a) for a in args), m, "".join(" " + hx(f) for f in files))
+
+
 def g_dd(rng, tier):
     r = rng.random()
     if r < 0.7:
@@ -865,7 +940,7 @@ def fuzz_cases(seed, tier):
 def generate(seed, tier):
     rng = random.Random(seed)
     n = 50000 if tier == "thorough" else 20000
-    fams = [(g_tt, 5), (g_st, 4), (g_nst, 3), (g_kv, 3), (g_glob, 1), (g_at, 3), (g_ft, 1), (g_ic, 1), (g_dt, 2), (g_dd, 2), (g_vec, 1), (g_seq, 1), (g_ct, 1)]
+    fams = [(g_tt, 5), (g_st, 4), (g_nst, 3), (g_kv, 3), (g_glob, 1), (g_at, 3), (g_ft, 1), (g_ic, 1), (g_dt, 2), (g_dd, 2), (g_vec, 1), (g_seq, 1), (g_ct, 1), (g_dte, 2), (g_opts, 1)]
     tot = sum(w for _, w in fams)
     cases = []
     # the extra batches of check.py's directed search (seed * 1000 + k) do not repeat the fixed universes
